@@ -150,10 +150,13 @@ is ignored by the parser, `p:*` matches nothing.
 
 ### 11.6 Seeded property-breaking changes (detection matrix)
 
-Five rounds of fresh sub-agents (2 x 17 changes, then 17, then 17, then 9 that
+Seven rounds of fresh sub-agents (2 x 17 changes, then 17, then 17, then 9 that
 were asked for changes which only manifest on LARGE instances: deep or wide
 documents, long histories, three goroutines, larger capacities; then 17 that
-were asked for TWO cooperating edits, each harmless alone) were given
+were asked for TWO cooperating edits, each harmless alone; then rounds 6 and 7,
+2 x 9 and 2 x 8 changes, each sub-agent pointed at named parts of the source —
+scanner, conversion helpers, clone methods, dispatch tables — and told which
+mechanisms earlier seeds had already used) were given
 only a property's text (rounds 2 and 3 also a one-line description of the
 earlier seeds, to force different mechanisms) and a scratch worktree of /repo,
 and asked for changes that break the property while compiling and passing the
@@ -207,6 +210,22 @@ one expression for C16; damage inside the operand of `true() or X` /
 "after the check was strengthened" among the E and F rows; before, they were only
 within reach of the thorough tier (depth) or of no tier (five siblings,
 capacity 4).
+Rounds 6 and 7 (34 changes, 12 missed at first) led to: a coordinator-side
+watchdog (a change that makes Compile spin made `./check C06` itself hang —
+now a `hang` violation within minutes, §1.8); namespace maps with arbitrary
+prefixes as inputs of CompileWithNS (C06); EVERY number lexeme over a digit
+alphabet up to a length, incl. `.5` and `5.` spellings (C08); operator chains
+over 21 operand *forms* — `1.`, `(x)`, `f(x)`, `$v`, `*`, names spelled like
+operators — so that an operator is seen next to every token kind (C10);
+count()/Evaluate asked twice of one compiled expression and positional
+wrappers (C12); subjects that are empty node-sets with patterns matching ''
+(C16); near misses of every axis name (C17); and/or operands that are
+multi-step paths with a last-step predicate, both orders (C02 P7); siblings
+with the same local name under different prefixes (C03 Pos5); a parent with
+255..300 children, i.e. sibling positions beyond one byte (C11 U7); operator
+trees whose operands are operator trees, as concurrent scenarios (C05).
+While adding multi-predicate parenthesised hosts to C02 a further genuine
+defect surfaced (`(P)[A][B]` lost `[B]`), repaired in §11.3.
 Three pre-existing engine defects were also reported by a sub-agent as a side
 remark (stale state in nested descendant steps and merge queries inside
 predicates; cursor left moved between the operands of a comparison); the
